@@ -26,6 +26,7 @@ type ucCase struct {
 	Size     int    `json:"size"`     // size / capacity argument
 	Notation string `json:"notation"` // absent first last
 	SrcCtx   string `json:"src_ctx,omitempty"`
+	Coarse   bool   `json:"coarse,omitempty"` // collator forms: the collator calls pool neighbours equal
 }
 
 var ucKinds = []string{"Array", "List", "Set", "Stack", "Queue", "Catalog", "Map"}
@@ -64,6 +65,9 @@ func genUC(s core.Source) ucCase {
 	c.Codes = []int{}
 	for i := 0; i < n; i++ {
 		c.Codes = append(c.Codes, s.Choose(12, "code"))
+	}
+	if strings.HasPrefix(c.Form, "collator") {
+		c.Coarse = s.Choose(2, "coarse") == 1
 	}
 	if c.Form == "source" {
 		if model.Associative(c.Kind) {
@@ -209,6 +213,20 @@ func runUC[V any](c ucCase, ue ucElem[V]) (res core.Result) {
 	// the reversed harness collator for the Set forms
 	natural := age.Collator[V]().Make()
 	reversed := &revCollator[V]{inner: natural}
+	if c.Coarse {
+		// a collator of the caller's own that calls neighbours in the pool equal (first and second, third and
+		// fourth, ...): which of two such values a set keeps is decided by the order they are added in
+		pool := ue.pool
+		reversed = &revCollator[V]{inner: natural, class: func(v V) int {
+			for i := range pool {
+				if same(any(v), any(pool[i])) {
+					return i / 2
+				}
+			}
+			return -1
+		}}
+		res.Classes = append(res.Classes, "coarse-collator")
+	}
 
 	fail := func(sig, format string, args ...any) core.Result {
 		res.Violation = core.Violate("C20/"+c.Kind+"/"+c.Form+"/"+sig, desc+": "+format, args...)
@@ -456,7 +474,13 @@ func runUC[V any](c ucCase, ue ucElem[V]) (res core.Result) {
 					want = S.MakeFromSequence(seqArg)
 				case "collator":
 					want = S.MakeWithCollator(reversed)
-				case "collator+array", "collator+sequence":
+				case "collator+array":
+					s := S.MakeWithCollator(reversed)
+					for _, v := range vals {
+						s.AddValue(v)
+					}
+					want = s
+				case "collator+sequence":
 					s := S.MakeWithCollator(reversed)
 					s.AddValues(seqArg)
 					want = s
@@ -509,11 +533,28 @@ func runUC[V any](c ucCase, ue ucElem[V]) (res core.Result) {
 	return res
 }
 
-type revCollator[V any] struct{ inner age.CollatorLike[V] }
+type revCollator[V any] struct {
+	inner age.CollatorLike[V]
+	class func(V) int // when set: values are ranked by their class alone
+}
 
 func (c *revCollator[V]) GetClass() age.CollatorClassLike[V] { return age.Collator[V]() }
-func (c *revCollator[V]) CompareValues(a, b V) bool          { return c.inner.CompareValues(a, b) }
+func (c *revCollator[V]) CompareValues(a, b V) bool {
+	if c.class != nil {
+		return c.class(a) == c.class(b)
+	}
+	return c.inner.CompareValues(a, b)
+}
 func (c *revCollator[V]) RankValues(a, b V) age.Rank {
+	if c.class != nil {
+		switch x, y := c.class(a), c.class(b); {
+		case x < y:
+			return age.GreaterRank
+		case x > y:
+			return age.LesserRank
+		}
+		return age.EqualRank
+	}
 	switch c.inner.RankValues(a, b) {
 	case age.LesserRank:
 		return age.GreaterRank
